@@ -35,7 +35,13 @@ def pick_via(rng, uninit):
     return rng.choice(VIAS_UNINIT if uninit else VIAS_PLAIN)
 
 
+PALETTE_SHAPES = [(0, 1), (0, 8), (1, 1), (2, 2), (4, 4), (4, 4), (8, 8), (8, 8), (8, 8), (16, 16), (3, 1), (12, 4), (12, 4),
+                  (24, 8), (16, 8), (16, 8), (48, 8), (32, 8)]
+
+
 def rand_shape(rng, profile):
+    if profile == "palette":      # the shapes the generated-code lab has field types for
+        return rng.choice(PALETTE_SHAPES)
     if profile == "small":
         return rng.choice([(0, 1), (1, 1), (2, 2), (4, 4), (8, 8), (3, 1), (12, 4), (0, 4)])
     r = rng.random()
@@ -80,6 +86,11 @@ def random_history(rng, hid, profile):
         maxadds = 32
         pool = None
         shp = "wide"
+    elif profile == "palette":
+        nvars = rng.randrange(2, 5)
+        maxadds = 6
+        pool = None
+        shp = "palette"
     else:
         nvars = rng.randrange(1, 7)
         maxadds = 7
